@@ -1,4 +1,4 @@
-import Rivaas.Lemmas.C15Misc
+import Rivaas.Lemmas.C15Trailer
 import Rivaas.Lemmas.C15Accept
 /-
 C15 — Response compression is transparent.
@@ -291,6 +291,118 @@ example : chooseEncoding "x-gzip, GZip ; Q=0.5 ,br;q=0".toList ⟨0, true, true,
   simp [chooseEncoding, scanAE, cut, parseCoding, paramsQ, eqFold, trimTS, lowerA, Compress.lowerC, parseQValue,
     brB, gzipB, qGe, isTabSp]
 
+/-! ### trailers -/
+
+/-- the trailers of the run without the middleware -/
+def plainTrailers (sn : Sniff) (h0 : Hdrs) (ops : List Op) : Hdrs :=
+  (runOps (plainStep sn) { live := h0 } ops).1.trailersAtFinish sn false
+
+theorem lemma_finish_live (sn : Sniff) (b : Base) : (b.finish sn).live = b.live := lemma_flush_live sn b
+
+/-- **Trailers are transparent.**  Every header field the plain server sends after the body arrives with
+    the same value through the middleware and vice versa — whatever the encoder's output size (`wireBig`).
+    Hypotheses beyond those of `transparent_partial`: the plain response declares no Content-Length (with one,
+    net/http sends no trailers at all while the compressed response is chunked), and its trailers are either
+    announced in `Trailer` or there is no `http.TrailerPrefix` key (the complement of open finding K15p). -/
+theorem trailers_transparent_partial (sn : Sniff) (cfg : Cfg) (path ae : Bytes) (h0 : Hdrs) (ops : List Op)
+    (hv : ∀ o ∈ ops, OpValid o) (hD : panicMidstream ops = false)
+    (hA : hhas (runPlain sn h0 ops).1.snap kCL = false)
+    (hB : announced (runPlain sn h0 ops).1.snap ≠ [] ∨
+          ∀ kv ∈ (runPlain sn h0 ops).1.live, startsWith trailerPrefix kv.1 = false)
+    (wireBig : Bool) (k : Bytes) :
+    hget (withTrailers sn cfg path ae h0 ops wireBig) k = hget (plainTrailers sn h0 ops) k := by
+  unfold withTrailers plainTrailers
+  simp only
+  by_cases hact : (active cfg path ae h0).isEmpty = true
+  · simp only [hact, if_true]
+  · have hact' : (active cfg path ae h0).isEmpty = false := by simpa using hact
+    simp only [hact', Bool.false_eq_true, if_false]
+    have henc : active cfg path ae h0 ≠ [] := by
+      intro e; rw [e] at hact; exact hact rfl
+    have hs := lemma_safe_of_not_midstream ops hD
+    obtain ⟨seen', hinv, hag⟩ := lemma_fold_ag sn ops false _ _ hv hs (lemma_init sn cfg _ h0 henc)
+      (lemma_ag_of_eq _ _ rfl)
+    unfold runPlain at hA hB
+    simp only at hA hB
+    unfold finalCW
+    simp only
+    generalize hw : (runOps (CW.step sn) ({ base := { live := h0 }, thr := cfg.minSize, enc := active cfg path ae h0, exclCT := cfg.exclCT } : CW) ops).1 = w at hinv hag ⊢
+    generalize hp : (runOps (plainStep sn) ({ live := h0 } : Base) ops).1 = p at hinv hag hA hB ⊢
+    rw [lemma_finish_live] at hB
+    -- the agreement survives Close
+    have hagW : Ag (if w.restored then w else w.close sn) p := by
+      rcases hinv with ⟨hl, _⟩ | hr
+      · rw [lemma_live_restored sn w p hl]
+        simp only [Bool.false_eq_true, if_false]
+        exact lemma_ag_close sn w p hl hag
+      · simp only [hr.r, if_true]; exact hag
+    have hst := lemma_close_state sn seen' w p hinv
+    generalize (if w.restored then w else w.close sn) = W at hagW hst ⊢
+    rw [lemma_hget_trailers, lemma_hget_trailers]
+    rcases hst with ⟨hc, hpr⟩ | ⟨w', core, hW⟩
+    · -- not compressing: the two base writers agree on everything but dead parts of the live map
+      simp only [hc, Bool.false_and]
+      by_cases hpw : p.wrote = false
+      · have := lemma_pass_eq_of_unwritten W.base p hpr hpw
+        rw [this]
+      · have hpw' : p.wrote = true := by simpa using hpw
+        have hww : W.base.wrote = true := by rw [lemma_pass_wrote W.base p hpr]; exact hpw'
+        obtain ⟨h1, _⟩ := hpr
+        have e1 : W.base.status = p.status := by rw [h1]
+        have e2 : W.base.snap = p.snap := by rw [h1]
+        have e3 : W.base.sent = p.sent := by rw [h1]
+        rw [lemma_chunked_wrote sn W.base false hww, lemma_chunked_wrote sn p false hpw', e1, e2, e3]
+        obtain ⟨_, _, f3, _⟩ := lemma_base_flush_cases sn p hpw'
+        obtain ⟨_, _, g3, _⟩ := lemma_base_flush_cases sn W.base hww
+        have fs : (p.finish sn).snap = p.snap := f3
+        have gs : (W.base.finish sn).snap = p.snap := by rw [← e2]; exact g3
+        rw [fs, gs, lemma_finish_live, lemma_finish_live]
+        split
+        · exact lemma_tlook_agree p.snap _ _ hagW k
+        · rfl
+    · -- compressing
+      have hWb : W.base = w'.base := by rw [hW]
+      have hWc : (W.compress && W.hasWriter) = true := by rw [hW]; simp [core.c, core.hw]
+      obtain ⟨hd, hc, hwr, nr, hs', cl, encne, bw, bst, pw, nb, bb, bct, bpn, pp, pl, T, hsnap, hT⟩ := core
+      have hww : W.base.wrote = true := by rw [hWb]; exact bw
+      obtain ⟨_, _, f3, _⟩ := lemma_base_flush_cases sn p pw
+      obtain ⟨_, _, g3, _⟩ := lemma_base_flush_cases sn W.base hww
+      have fs : (p.finish sn).snap = p.snap := f3
+      have gs : (W.base.finish sn).snap = cmpSnap p.snap T w'.enc := by
+        have : (W.base.finish sn).snap = W.base.snap := g3
+        rw [this, hWb, hsnap]
+      rw [fs] at hA hB
+      rw [lemma_chunked_wrote sn W.base _ hww, lemma_chunked_wrote sn p false pw, fs, gs, lemma_finish_live,
+        lemma_finish_live, hWb, hsnap, bst, lemma_announced_cmpSnap, lemma_hhas_cmpSnap_CL, hA, nb]
+      rw [lemma_tlook_announced (cmpSnap p.snap T w'.enc) p.snap _ k (lemma_announced_cmpSnap _ _ _)]
+      have hag' : ∀ κ, isTrailerKey p.snap κ = true → hget w'.base.live κ = hget p.live κ := by
+        intro κ hk; rw [← hWb]; exact hagW κ hk
+      rcases hB with hB | hB
+      · have hne : (announced p.snap).isEmpty = false := by
+          cases hh : announced p.snap with
+          | nil => exact absurd hh hB
+          | cons x xs => rfl
+        simp only [hne, Bool.not_false, Bool.true_or, Bool.or_true, Bool.and_true, if_true]
+        exact lemma_tlook_agree p.snap _ _ hag' k
+      · have hnone : ∀ l : Hdrs, (∀ κ, isTrailerKey p.snap κ = true → hget l κ = hget p.live κ) →
+            announced p.snap = [] → tlook p.snap l k = none := by
+          intro l hl he
+          have h1 : hget l (trailerPrefix ++ k) = none := by
+            rw [hl _ (by simp [isTrailerKey, lemma_startsWith_append])]
+            exact lemma_hget_noprefix p.live k hB
+          unfold tlook
+          rw [he, h1]
+          simp
+        by_cases he : announced p.snap = []
+        · rw [hnone _ hag' he, hnone p.live (fun _ _ => rfl) he]
+          simp
+        · have hne : (announced p.snap).isEmpty = false := by
+            cases hh : announced p.snap with
+            | nil => exact absurd hh he
+            | cons x xs => rfl
+          simp only [hne, Bool.not_false, Bool.true_or, Bool.or_true, Bool.and_true, if_true]
+          exact lemma_tlook_agree p.snap _ _ hag' k
+
 /-! ### the code as it was shipped (witnesses of the repaired findings), and the open finding -/
 
 /-- a stand-in for http.DetectContentType in the witnesses -/
@@ -364,5 +476,14 @@ theorem open_panic_midstream_witness :
                 .write "{}".toList]
     (respOf sn0 (finalCW sn0 (cfg0 0) gz [] ops).1 (finalCW sn0 (cfg0 0) gz [] ops).2).decoded = none ∧
     (runPlain sn0 [] ops).1.resp.body = "partial{}".toList ∧ panicMidstream ops = true := by decide
+
+/-- the hypotheses of `trailers_transparent_partial` are met by a program that announces a trailer, writes a body
+    that is held back and sets the trailer afterwards (and the trailer does arrive: the statement is not about
+    empty lists) -/
+example :
+    let ops := [Op.setH kTrailer ["X-T".toList], .write "body".toList, .setH "X-T".toList ["late".toList]]
+    hhas (runPlain sn0 [] ops).1.snap kCL = false ∧ announced (runPlain sn0 [] ops).1.snap ≠ [] ∧
+    hget (plainTrailers sn0 [] ops) "X-T".toList = some ["late".toList] := by decide
+
 
 end Rivaas.C15
